@@ -39,6 +39,7 @@ fn plan(prop: &str, tier: Tier) -> Option<Plan> {
         "C13" => (checks::c13::spaces(tier), checks::c13::meta(tier)),
         "C14" => (checks::c14::spaces(tier), checks::c14::meta(tier)),
         "C19" => (checks::c19::spaces(tier), checks::c19::meta(tier)),
+        "C15" => (checks::c15::spaces(tier), checks::c15::meta(tier)),
         "C17" => (checks::c17::spaces(tier), checks::c17::meta(tier)),
         "C18" => (checks::c18::spaces(tier), checks::c18::meta(tier)),
         _ => return None,
